@@ -119,6 +119,13 @@ CHECKS = {
          'and Dec_strict(tree) = Q6(Abs(g)) with the independent reader of spec/HJson.tla.',
     ref='DESIGN.md 5/C06', technique='TLA+ reader spec HJson (strict mode) executed by TLC over hszinc\'s JSON output; TLC layout plans',
     note='Q6 delegated as for C02'),
+
+ 'C07': dict(
+    text='spec/Codec.tla: the codec as a store machine (registers holding grids or texts; ParseZ/ParseJ/DumpZ/DumpJ); TLC checks Lossless (up to the idempotent six-decimal quantiser), Pure and Deterministic for every sequence of <=5 operations over 3 registers.  '
+         'Seeded random walks of the real parse/dump functions (6-10 steps, three registers, str/bytes/pre-decoded inputs, normalise-twice steps) start from documents spelled by the independent writer ZincWrite.tla (parser-made values: fixed-offset tzinfo, '
+         'unofficial version strings) and from JSON dumps; every event is validated by spec/Trace_Codec.tla, whose registers hold what the reader machines ZincRead/HJson say the texts denote (register drift, source changed by dump, dump not deterministic, dump unreadable/differs, parse differs, normalise not idempotent).',
+    ref='DESIGN.md 5/C07', technique='TLA+ spec Codec model-checked; TLC trace validation of random codec walks with the ZincRead/HJson reader machines as oracles',
+    note='Q6 of expected values computed with exact decimals in Python; zone-name latitude for fixed offsets as in C17'),
 }
 NOT_YET = {}
 
